@@ -150,6 +150,15 @@ func parseCPTR(path string) (frames [][]byte, err error) {
 	if id, _ := hf.Uint32(cptv.DeviceID); id != 77 {
 		return nil, fmt.Errorf("header device id %d", id)
 	}
+	// the file's creation time (from the harness-owned clock: 2023-11-14T22:13:20Z + virtual time, never before it)
+	if ts, err := hf.Timestamp(cptv.Timestamp); err != nil {
+		return nil, fmt.Errorf("header has no timestamp field (%v)", err)
+	} else if ts.Before(time.Unix(1_700_000_000, 0)) || ts.After(time.Unix(1_700_000_000, 0).Add(24*time.Hour)) {
+		return nil, fmt.Errorf("header timestamp %v is not the file's creation time", ts.UTC())
+	}
+	if comp, err := hf.Uint8(cptv.Compression); err != nil || comp != 0 {
+		return nil, fmt.Errorf("header compression field %d (%v), expected 0 = uncompressed", comp, err)
+	}
 	for {
 		sec, err := r.ReadByte()
 		if err == io.EOF {
@@ -474,6 +483,6 @@ func TestVerifC18(t *testing.T) {
 func c18Describe(r *ev.Run, completeBound, maxBound int) {
 	r.Bounds["deviation_bound_complete"] = completeBound
 	r.Bounds["deviation_bound_attempted"] = maxBound
-	r.Rule = "the real handleConn of thermal-writer (which starts the real writer goroutine) on an in-memory connection, under the cooperative scheduler: instrumented copies of main.go/thermalraw.go/bufferedfile.go (channel operations, goroutine start, select, one-minute rotation timer, clock are scheduling points; the Go select's random pick and the timer are explored choices); buffer pool size inFlight scaled to 1,2,3 with 0..2N+2 frames, a trailing partial frame, a short read, inFlight=256 with 258 frames at bound 1, a read boundary at every offset of a 3-frame stream (quick: every third offset inside the header) at bound 1, frame sizes 1, 7, 9 and 70000 bytes (larger than the scaled read buffer) at bound 1, and the camera reconnecting within the same process with another frame size; every interleaving with at most the stated number of deviations (preemptions + timer fires; thorough: sharded over 14 processes, the higher bound under a time cap, reported per scenario). Oracle: all *.cptr parse (magic, version, header fields, only length-prefixed frame sections, no trailing bytes), concatenated payloads = frames sent, no deadlock/panic, and no pair of frame-buffer accesses (io.ReadFull fill vs writeFrame) unordered by channel happens-before. Non-trivial = every execution (the depth-first enumeration never repeats a choice sequence, so executions of one scenario are pairwise distinct schedules)."
+	r.Rule = "the real handleConn of thermal-writer (which starts the real writer goroutine) on an in-memory connection, under the cooperative scheduler: instrumented copies of main.go/thermalraw.go/bufferedfile.go (channel operations, goroutine start, select, one-minute rotation timer, clock are scheduling points; the Go select's random pick and the timer are explored choices); buffer pool size inFlight scaled to 1,2,3 with 0..2N+2 frames, a trailing partial frame, a short read, inFlight=256 with 258 frames at bound 1, a read boundary at every offset of a 3-frame stream (quick: every third offset inside the header) at bound 1, frame sizes 1, 7, 9 and 70000 bytes (larger than the scaled read buffer) at bound 1, and the camera reconnecting within the same process with another frame size; every interleaving with at most the stated number of deviations (preemptions + timer fires; thorough: sharded over 14 processes, the higher bound under a time cap, reported per scenario). Oracle: all *.cptr parse (magic, version, all nine header fields incl. creation timestamp and compression 0, only length-prefixed frame sections, no trailing bytes), concatenated payloads = frames sent, no deadlock/panic, and no pair of frame-buffer accesses (io.ReadFull fill vs writeFrame) unordered by channel happens-before. Non-trivial = every execution (the depth-first enumeration never repeats a choice sequence, so executions of one scenario are pairwise distinct schedules)."
 	r.Assumptions = []string{"sequentially consistent interleavings at synchronisation granularity + happens-before race check on the frame buffers (a race-free Go program is SC)", "bufio buffer scaled from 32 MiB to 64 KiB, inFlight scaled through a run-time parameter (both by the syntactic instrumenter)"}
 }
